@@ -4,7 +4,7 @@
 jobs="$1"; shift
 V=$(cd "$(dirname "$0")/.." && pwd)
 mkdir -p /tmp/mx
-ids=$(ls -d $V/seeded/*/ | xargs -n1 basename | grep -E "${ONLY:-.}")
+ids=$(ls -d $V/seeded/*/ | xargs -n1 basename | grep -E -e "${ONLY:-.}")
 k=0
 while [ $k -lt $jobs ]; do
   [ -d /tmp/mx/r$k ] || git -C /repo worktree add --detach /tmp/mx/r$k HEAD -q
